@@ -1246,3 +1246,50 @@ def checked_arith_sites(fn):
         t = type_range(ty)
         out.append((st, m.group(1), ty, r, t[0] <= r[0] and r[1] <= t[1]))
     return out
+
+
+def conjunction_edges(fn, base_locals, base_edges, max_iter=6):
+    """Edges that can only be taken when a test held, beyond the test's own true-edges: true-edges of boolean locals
+    that are assigned `false`, or a value only in blocks edge-dominated by an establishing edge, or a copy of a local
+    already known to imply the test (`let ok = a && b && test;` followed by `if ok`). Sound for the 'true' side only."""
+    edges = set(base_edges)
+    implied = set(base_locals)
+    for l in list(implied):
+        edges |= bool_local_edges(fn, l, "true")
+    for _ in range(max_iter):
+        added = False
+        for l, ty in fn.locals.items():
+            if ty != "bool" or l in implied:
+                continue
+            cdefs = [c for c in fn.calls if c.dest_local == l and c.bb not in fn.cleanup]
+            defs = [st for st in fn.stmts if st.lhs == l and st.bb not in fn.cleanup]
+            if not defs and not cdefs:
+                continue
+            ok, has_true = True, False
+            for c in cdefs:  # assigned by a call (the last conjunct of `a && b && c()`): fine where the call can
+                has_true = True  # only run after an establishing edge
+                if not any(fn.edge_dominates(e, c.bb) for e in edges):
+                    ok = False
+            if not ok:
+                continue
+            for st in defs:
+                txt = st.text()
+                if st.kind == "use" and re.search(r"const (false|Scalar\(0x00\): bool)", txt):
+                    continue
+                has_true = True
+                if any(fn.edge_dominates(e, st.bb) for e in edges):
+                    continue
+                srcs = locals_in(txt)
+                if st.kind == "use" and len(srcs) == 1 and srcs[0] in implied:
+                    continue
+                ok = False
+                break
+            if ok and has_true:
+                implied.add(l)
+                new = bool_local_edges(fn, l, "true") - edges
+                if new:
+                    edges |= new
+                added = True
+        if not added:
+            break
+    return edges
